@@ -105,21 +105,9 @@ func findFirstBetween(value, sub, start, finish any) (any, error) {
 
 	if i < 0 {
 		i = 0
-	} else if i > len(s) {
-		return nil, nil
-	} else {
-		n := 0
-		for j := 0; j < i; j++ {
-			_, sz := utf8.DecodeRuneInString(s[n:])
-			if sz == 0 {
-				return nil, nil
-			}
-
-			n += sz
-		}
-
-		i = n
 	}
+
+	i = runeOffset(s, i)
 
 	j, isNum, ok := toInt(finish)
 	if !ok {
@@ -145,20 +133,12 @@ func findFirstBetween(value, sub, start, finish any) (any, error) {
 
 	if j < 0 {
 		return nil, nil
-	} else if j > len(s) {
-		j = len(s)
-	} else {
-		n := 0
-		for k := 0; k < j; k++ {
-			_, sz := utf8.DecodeRuneInString(s[n:])
-			if sz == 0 {
-				return nil, nil
-			}
+	}
 
-			n += sz
-		}
+	j = runeOffset(s, j)
 
-		j = n
+	if len(p) == 0 || i >= j {
+		return nil, nil
 	}
 
 	r := strings.Index(s[i:j], p)
@@ -211,20 +191,12 @@ func findFirstFrom(value, sub, start any) (any, error) {
 
 	if i < 0 {
 		i = 0
-	} else if i > len(s) {
+	}
+
+	i = runeOffset(s, i)
+
+	if len(p) == 0 {
 		return nil, nil
-	} else {
-		n := 0
-		for j := 0; j < i; j++ {
-			_, sz := utf8.DecodeRuneInString(s[n:])
-			if sz == 0 {
-				return nil, nil
-			}
-
-			n += sz
-		}
-
-		i = n
 	}
 
 	r := strings.Index(s[i:], p)
@@ -314,21 +286,9 @@ func findLastBetween(value, sub, start, finish any) (any, error) {
 
 	if i < 0 {
 		i = 0
-	} else if i > len(s) {
-		return nil, nil
-	} else {
-		n := 0
-		for j := 0; j < i; j++ {
-			_, sz := utf8.DecodeRuneInString(s[n:])
-			if sz == 0 {
-				return nil, nil
-			}
-
-			n += sz
-		}
-
-		i = n
 	}
+
+	i = runeOffset(s, i)
 
 	j, isNum, ok := toInt(finish)
 	if !ok {
@@ -354,20 +314,12 @@ func findLastBetween(value, sub, start, finish any) (any, error) {
 
 	if j < 0 {
 		return nil, nil
-	} else if j > len(s) {
-		j = len(s)
-	} else {
-		n := 0
-		for k := 0; k < j; k++ {
-			_, sz := utf8.DecodeRuneInString(s[n:])
-			if sz == 0 {
-				return nil, nil
-			}
+	}
 
-			n += sz
-		}
+	j = runeOffset(s, j)
 
-		j = n
+	if len(p) == 0 || i >= j {
+		return nil, nil
 	}
 
 	r := strings.LastIndex(s[i:j], p)
@@ -420,20 +372,12 @@ func findLastFrom(value, sub, start any) (any, error) {
 
 	if i < 0 {
 		i = 0
-	} else if i > len(s) {
+	}
+
+	i = runeOffset(s, i)
+
+	if len(p) == 0 {
 		return nil, nil
-	} else {
-		n := 0
-		for j := 0; j < i; j++ {
-			_, sz := utf8.DecodeRuneInString(s[n:])
-			if sz == 0 {
-				return nil, nil
-			}
-
-			n += sz
-		}
-
-		i = n
 	}
 
 	r := strings.LastIndex(s[i:], p)
@@ -443,6 +387,22 @@ func findLastFrom(value, sub, start any) (any, error) {
 
 	r = utf8.RuneCountInString(s[:r+i])
 	return int64(r), nil
+}
+
+// runeOffset returns the byte offset of the n-th code point of s, or len(s)
+// when s has fewer than n code points.
+func runeOffset(s string, n int) int {
+	if n >= len(s) {
+		return len(s)
+	}
+
+	off := 0
+	for ; n > 0 && off < len(s); n-- {
+		_, sz := utf8.DecodeRuneInString(s[off:])
+		off += sz
+	}
+
+	return off
 }
 
 func join(sep, value any) (any, error) {
